@@ -11,6 +11,7 @@ from __future__ import annotations
 
 import ast
 
+from pv.q import text as qtext
 from pv.model import AnalysisError, walk_no_nested, params, UNKNOWN
 from pv.norm import Normalizer, Poly, single_defs
 from pv.q import has_stmt, has_if, find_if, returns, body_texts
@@ -32,7 +33,7 @@ def rule_match(model, rep):
     rep.check("client_time = time + skew" in body, R, s, "client_time = time + skew", "client clock = server time + skew",
               witness="skew is subtracted / ignored: codes from a client running ahead are rejected")
     # last_counter None handling
-    iff = [n for n in fn.body if isinstance(n, ast.If) and "last_counter" in ast.unparse(n.test) and any("last_counter = " in ast.unparse(x) for x in n.body)]
+    iff = [n for n in fn.body if isinstance(n, ast.If) and qtext(n.test).loose("last_counter") and any(qtext(x).loose("last_counter = ") for x in n.body)]
     ok = len(iff) == 1 and ast.unparse(iff[0].test) == "last_counter is None" and [ast.unparse(x) for x in iff[0].body] == ["last_counter = -1"]
     rep.check(ok, R, s, ast.unparse(iff[0])[:80] if iff else "<none>", "no history is `last_counter is None` -> -1 (counter 0 is a real counter)",
               witness="last_counter=0 is treated as 'no last counter': the code of the first time step is accepted again and again")
@@ -53,11 +54,11 @@ def rule_match(model, rep):
               witness="with two counters in the window producing the same code, the later one is returned: a replay of the code for last_counter is accepted instead of UsedTokenError")
     # used-token check
     used = find_if(fn, "counter == last_counter")
-    ok = len(used) == 1 and any(isinstance(x, ast.Raise) and "UsedTokenError" in ast.unparse(x) for x in used[0].body)
+    ok = len(used) == 1 and any(isinstance(x, ast.Raise) and qtext(x).loose("UsedTokenError") for x in used[0].body)
     rep.check(ok, R, s, ast.unparse(used[0])[:100] if used else "<none>", "a match on the last used counter raises UsedTokenError",
               witness="a code is accepted twice")
     if ok:
-        rep.check("expire_time=(last_counter + 1) * self.period" in ast.unparse(used[0]), R, s, "expire_time=(last_counter + 1) * self.period", "reported expiry is the end of that counter's period")
+        rep.check("expire_time=(last_counter + 1) * self.period" in qtext(used[0]), R, s, "expire_time=(last_counter + 1) * self.period", "reported expiry is the end of that counter's period")
     rep.check(body[-1] == "return TotpMatch(self, counter, time, window)", R, s, body[-1], "result carries (counter, reference time, window)")
     rep.check("self._check_serial(window, 'window')" in body, R, s, "window validated", "window must be a non-negative integer")
     # window / skew defaults
